@@ -494,7 +494,138 @@ fn recv_payloads(thorough: bool) -> Vec<Vec<u8>> {
             set.insert(p);
         }
     }
+    // long payloads: any number of unknown / reserved-form (grease) identifiers may accompany the known ones.
+    // n entries with distinct identifiers in the 8-byte form and 8-byte values (16 bytes each), a known identifier
+    // first / last / in the middle: payload lengths well above anything h3 itself would send
+    for n in [1usize, 7, 8, 9, 15, 16, 17, 33, 64, 200] {
+        let unknown: Vec<Vec<u8>> = (0..n as u64)
+            .map(|i| {
+                let id = if i % 2 == 0 { 0x21 + 0x1f * (1000 + i) } else { 0x1_0000_0000 + i };
+                let mut e = varint::encode_len(id, 8).unwrap();
+                e.extend(varint::encode_len(i + 2, 8).unwrap());
+                e
+            })
+            .collect();
+        let known = { let mut e = varint::encode(rs::MAX_FIELD_SECTION_SIZE).unwrap(); e.extend(varint::encode(100).unwrap()); e };
+        let dg = { let mut e = varint::encode(rs::H3_DATAGRAM).unwrap(); e.push(0x01); e };
+        for pos in [0usize, n / 2, n] {
+            let mut pl = Vec::new();
+            for (i, u) in unknown.iter().enumerate() {
+                if i == pos {
+                    pl.extend(&known);
+                }
+                pl.extend(u);
+            }
+            if pos == n {
+                pl.extend(&known);
+            }
+            pl.extend(&dg);
+            set.insert(pl);
+        }
+    }
     set.into_iter().collect()
+}
+
+// ------------------------------------------------------------------------------------------------
+// behaviour that depends on the applied settings: establishing a WebTransport session
+
+#[derive(Clone, Debug)]
+pub struct WtCase {
+    /// the peer's SETTINGS: ENABLE_WEBTRANSPORT, H3_DATAGRAM, ENABLE_CONNECT_PROTOCOL (None = not listed)
+    pub peer: [Option<u64>; 3],
+    /// the server's own configuration (must not matter for what the PEER supports)
+    pub local_wt: bool,
+    pub local_dg: bool,
+}
+
+/// A server receives the peer's SETTINGS, then an extended CONNECT for webtransport, and calls
+/// `WebTransportSession::accept`. Result: "ok" or the error class.
+pub fn wt_run(c: &WtCase) -> (String, Vec<u64>, Vec<(String, String)>) {
+    fastrand::seed(1);
+    let net = Net::new(NetCfg::default());
+    let mut ex = Exec::new();
+    let res = shared(String::new());
+    let state: Shared<Option<Arc<h3::SharedState>>> = shared(None);
+    {
+        let (net2, res2, st2, c2) = (net.clone(), res.clone(), state.clone(), c.clone());
+        ex.spawn("main", async move {
+            let mut b = h3::server::builder();
+            b.send_grease(false).enable_webtransport(c2.local_wt).enable_extended_connect(true).enable_datagram(c2.local_dg).max_webtransport_sessions(1);
+            let mut conn: SrvConn = match b.build(SimConn::new(&net2, SERVER)).await {
+                Ok(c) => c,
+                Err(e) => {
+                    *res2.borrow_mut() = format!("build:{}", conn_class(&e));
+                    return;
+                }
+            };
+            *st2.borrow_mut() = Some(conn.inner.shared.clone());
+            let resolver = match conn.accept().await {
+                Ok(Some(r)) => r,
+                other => {
+                    *res2.borrow_mut() = format!("accept:{:?}", other.map(|o| o.is_some()).map_err(|e| conn_class(&e)));
+                    return;
+                }
+            };
+            let (req, stream) = match resolver.resolve_request().await {
+                Ok(x) => x,
+                Err(e) => {
+                    *res2.borrow_mut() = format!("resolve:{}", stream_class(&e));
+                    return;
+                }
+            };
+            let r = h3_webtransport::server::WebTransportSession::<SimConn, bytes::Bytes>::accept(req, stream, conn).await;
+            *res2.borrow_mut() = match &r {
+                Ok(_) => "ok".into(),
+                Err(e) => stream_class(e),
+            };
+            std::future::pending::<()>().await;
+            drop(r);
+        });
+    }
+    {
+        let (net, c, state) = (net.clone(), c.clone(), state.clone());
+        ex.spawn("script", async move {
+            let ids = [rs::ENABLE_WEBTRANSPORT, rs::H3_DATAGRAM, rs::ENABLE_CONNECT_PROTOCOL];
+            let entries: Vec<(u64, u64)> = ids.iter().zip(c.peer.iter()).filter_map(|(id, v)| v.map(|v| (*id, v))).collect();
+            net.raw_open(CLIENT_CTRL);
+            net.raw_write(CLIENT, CLIENT_CTRL, &control_preamble(&rs::encode(&entries)));
+            // the request comes after the SETTINGS have been taken in
+            let mut spins = 0;
+            while spins < 40 {
+                spins += 1;
+                yield_now().await;
+                if state.borrow().is_some() && spins > 6 {
+                    break;
+                }
+            }
+            let f = |n: &str, v: &[u8]| (n.as_bytes().to_vec(), v.to_vec());
+            let sec = refimpl::qpack::encode_literal_section(&[f(":method", b"CONNECT"), f(":protocol", b"webtransport"), f(":scheme", b"https"), f(":authority", b"a"), f(":path", b"/wt")], false);
+            net.raw_open(0);
+            net.raw_write(CLIENT, 0, &rf::frame(rf::HEADERS, &sec));
+        });
+    }
+    let q = ex.run(8000, |_| {});
+    let r = res.borrow().clone();
+    (r, net.close_calls(SERVER).iter().map(|c| c.0).collect(), q.panics)
+}
+
+pub fn judge_wt(c: &WtCase, r: &str, closes: &[u64], panics: &[(String, String)]) -> Vec<(String, String)> {
+    let ctx = format!("server (own configuration webtransport={}, datagram={}) whose peer's SETTINGS list ENABLE_WEBTRANSPORT={:?}, H3_DATAGRAM={:?}, ENABLE_CONNECT_PROTOCOL={:?}, then WebTransportSession::accept on an extended CONNECT", c.local_wt, c.local_dg, c.peer[0], c.peer[1], c.peer[2]);
+    let mut out = Vec::new();
+    for (t, p) in panics {
+        out.push((format!("C13:wt:panic@{}", explore::panics::short_loc(p)), format!("{ctx}: task {t} panicked: {p}")));
+    }
+    // what the PEER advertised decides (its values are the applied settings), not the server's own configuration
+    let peer_supports = c.peer[0] == Some(1) && c.peer[1] == Some(1);
+    let refused = format!("Conn:Local({:#x})", auto::H3_SETTINGS_ERROR);
+    if peer_supports {
+        if r != "ok" {
+            out.push((format!("C13:wt:session-refused-although-the-peer-enabled-it:{r}"), format!("{ctx}: result {r:?}, close calls {closes:x?}")));
+        }
+    } else if r != refused {
+        out.push((format!("C13:wt:session-accepted-although-the-peer-did-not-enable-it:{}", if r.is_empty() { "pending" } else { r }), format!("{ctx}: result {r:?}, expected the connection error H3_SETTINGS_ERROR; close calls {closes:x?}")));
+    }
+    out
 }
 
 pub fn run(args: &Args) -> i32 {
@@ -503,7 +634,7 @@ pub fn run(args: &Args) -> i32 {
     let _ = Tier::Thorough;
     let mut rep = Report::new("C13", args.tier, args.seed, "model_checking");
     rep.exhaustive = true;
-    rep.rule = "send: every builder configuration - all combinations of the boolean options x max_field_section_size and max_webtransport_sessions over {unset, 0, 1, 63, 64, 16383, 16384, 2^30-1, 2^30, 2^62-1, 2^62, u64::MAX} x grease on/off x 4 fastrand seeds x write acceptance (whole, one byte at a time), for the server and the client builder; the local control stream log is parsed by refimpl (one SETTINGS first, no identifier twice, no HTTP/2-reserved identifier, grease form, effective value of every known identifier = configured value). receive: every SETTINGS payload made of <= 2 entries over 15 identifiers x {0,1,100,2^62-1} plus padded varint forms, triples over 10 (15) identifiers, truncated at every byte, delivered whole and one byte per read, to a real server and client; error code and applied values (shared settings getters; the size limit echoed by HeaderTooBig on a late request) compared with refimpl::settings. states = distinct configurations / payloads; non-trivial = non-default configurations and payloads with >= 2 entries.".into();
+    rep.rule = "send: every builder configuration - all combinations of the boolean options x max_field_section_size and max_webtransport_sessions over {unset, 0, 1, 63, 64, 16383, 16384, 2^30-1, 2^30, 2^62-1, 2^62, u64::MAX} x grease on/off x 4 fastrand seeds x write acceptance (whole, one byte at a time), for the server and the client builder; the local control stream log is parsed by refimpl (one SETTINGS first, no identifier twice, no HTTP/2-reserved identifier, grease form, effective value of every known identifier = configured value). receive: every SETTINGS payload made of <= 2 entries over 15 identifiers x {0,1,100,2^62-1} plus padded varint forms, triples over 10 (15) identifiers, truncated at every byte, delivered whole and one byte per read, to a real server and client; error code and applied values (shared settings getters; the size limit echoed by HeaderTooBig on a late request) compared with refimpl::settings; payloads of 1..200 unknown / grease entries in the 8-byte forms (up to 3.2 KB) around the known ones; and behaviour that depends on the applied values: a server whose peer's SETTINGS list ENABLE_WEBTRANSPORT / H3_DATAGRAM / ENABLE_CONNECT_PROTOCOL in {absent, 0, 1} x the server's own webtransport / datagram configuration calls WebTransportSession::accept on an extended CONNECT: established iff the PEER enabled both, else H3_SETTINGS_ERROR. states = distinct configurations / payloads; non-trivial = non-default configurations and payloads with >= 2 entries.".into();
     rep.assumptions = vec![
         "a configured value >= 2^62 cannot be carried by a varint: a clean refusal of setup (error, no panic) or a saturated value is accepted".into(),
         "repeated identifier is asserted for identifiers h3 knows; a repeated unknown identifier may be ignored or rejected with H3_SETTINGS_ERROR".into(),
@@ -591,10 +722,36 @@ pub fn run(args: &Args) -> i32 {
             }
         }
     }));
+    // ---- behaviour that depends on applied settings: WebTransport session establishment
+    let mut wcases: Vec<WtCase> = Vec::new();
+    for wt in [None, Some(0), Some(1)] {
+        for dg in [None, Some(0), Some(1)] {
+            for ec in [None, Some(1)] {
+                for local_wt in [false, true] {
+                    for local_dg in [false, true] {
+                        wcases.push(WtCase { peer: [wt, dg, ec], local_wt, local_dg });
+                    }
+                }
+            }
+        }
+    }
+    accs.extend(explore::par::run(&wcases, Acc::new, |_, c, acc| {
+        let (r, closes, panics) = wt_run(c);
+        acc.evaluations += 1;
+        acc.dfs.executions += 1;
+        let mut h = Fnv::new();
+        h.str(&format!("{c:?}"));
+        acc.states.insert(h.finish());
+        acc.nontrivial.insert(h.finish());
+        for (sig, msg) in judge_wt(c, &r, &closes, &panics) {
+            acc.violation(sig, msg, (0, 0), || json!({"kind":"wt","peer":c.peer,"local_wt":c.local_wt,"local_dg":c.local_dg}));
+        }
+    }));
     let mut total = Acc::new();
     for a in accs {
         total.merge(a);
     }
+    total.count("webtransport_accept_cases", wcases.len() as u64);
     total.count("configurations", cfgs.len() as u64);
     total.count("received_payloads", payloads.len() as u64);
     total.samples.push(json!(cfg_str(&cfgs[cfgs.len() / 3])));
@@ -604,6 +761,21 @@ pub fn run(args: &Args) -> i32 {
 }
 
 pub fn replay(r: &Value) -> i32 {
+    if r["kind"] == "wt" {
+        let pv = |i: usize| r["peer"][i].as_u64();
+        let c = WtCase { peer: [pv(0), pv(1), pv(2)], local_wt: r["local_wt"].as_bool().unwrap(), local_dg: r["local_dg"].as_bool().unwrap() };
+        let (res, closes, panics) = wt_run(&c);
+        println!("case: {c:?}\nresult: {res:?} close calls {closes:x?} panics {panics:?}");
+        let v = judge_wt(&c, &res, &closes, &panics);
+        for (sig, msg) in &v {
+            println!("observed: {sig}: {msg}");
+        }
+        if v.is_empty() {
+            println!("observed: no violation");
+            return 0;
+        }
+        return 1;
+    }
     let v = match r["kind"].as_str() {
         Some("send") => {
             let c = &r["cfg"];
